@@ -93,6 +93,10 @@ pub fn alpha_beta_search(
     let current_player_is_maximizing = current_player.maximize_score();
     let mut candidates =
         move_generator.generate_moves_and_lazily_update_chess_move_effects(board, current_player);
+    if candidates.is_empty() {
+        // Checkmate or stalemate: there is nothing to choose from.
+        return Err(SearchError::NoAvailableMoves);
+    }
     sort_chess_moves(&mut candidates, &board);
 
     // First, score each of the candidates. Note: `par_iter` is a rayon
